@@ -71,8 +71,10 @@ func GoEnv(extra ...string) []string {
 	}
 	path := os.Getenv("PATH")
 	const newgo = "/opt/veriftools/go1.26.8/bin"
-	if _, err := os.Stat(newgo); err == nil {
+	if _, err := os.Stat(newgo); err == nil && !strings.HasPrefix(path, newgo+":") {
 		path = newgo + ":" + path
+		// go/packages looks the go command up in this process's PATH
+		os.Setenv("PATH", path)
 	}
 	env = append(env,
 		"PATH="+path,
